@@ -60,18 +60,24 @@ CHECKS = {
         technique="Coq proof over R on a model translated from the source on every run (field/lra/exp_ineq1/trig lemmas, complex numbers as pairs of reals) + interval enclosures + numeric law sweep",
         design="5/C08"),
     "C02": dict(
-        text=("Theorems (closed under the global context) about an executable model of FileSet.get_filename / the regex of "
+        text=("17 theorems (closed under the global context) about an executable model of FileSet.get_filename / the regex of "
               "_fill_placeholders + re.match / the time arithmetic of get_info on top of a proved proleptic Gregorian calendar "
               "(civil<->days round trip for all 3 652 059 days: one 400-year cycle by vm_compute lifted by lia periodicity lemmas): "
-              "parse_render (every placeholder string recovered, repeated placeholders and value lists included), no_end_fields "
-              "(start + time_coverage, or start), roundtrip_end_full (start s, end e, attributes for every s <= e in 1000-9999 / "
-              "1965-2064 incl. leap days, doy 366, year2, milliseconds), handler_overrides / handler_only, unknown / unfilled "
-              "placeholder errors, no_match_rejected. NOT proved and named in Props/C02.v: the sub-day partial-end completion with "
-              "roll-over (roundtrip_end_partial, end_partial_exact) and parse_sound; those clauses are evaluated on every generated "
-              "case by the property's own law checker on the implementation. Tie: the constant tables of the source are compared with "
-              "the model's, and grammar-generated template x period x fill cases run through the real FileSet and through the model in Coq."),
+              "parse_render (every placeholder string recovered, repeated placeholders and value lists included); parse_sound, "
+              "parse_complete, rejected_iff_no_instance (the ValueError is raised exactly on names that are not instances of the "
+              "template: a non-matching name is never mis-parsed); no_end_fields (start + time_coverage, or start); "
+              "roundtrip_end_full (start s, end e for every s <= e in 1000-9999 / 1965-2064 incl. leap days, doy 366, year2, "
+              "milliseconds); roundtrip_end_partial / end_partial_exact (an end spelt only with sub-day fields takes the other "
+              "fields from the start and is rolled forward by one day / hour / minute iff it would precede the start; it equals e "
+              "whenever 0 <= e - s < that unit, across month, year and leap-day boundaries); roundtrip_start for all three end "
+              "kinds; handler_overrides (also with a sub-day end) / handler_only; unknown / unfilled placeholder errors. No theorem "
+              "is partial. Not claimed: end-field sets other than 'as complete as the start' or a sub-day suffix (the 31-day "
+              "'month'), literals with regex syntax. Tie: the constant tables of the source are compared with the model's; "
+              "grammar-generated template x period x fill cases run through the real FileSet (also reached through "
+              "set_placeholders() histories) and through the model in Coq; every name the real parse_filename accepts gets a witness "
+              "checked in Coq (instance_certificate); the property's own law checker evaluates every clause on the implementation."),
         note=COMMON_NOTE + " Python re priority semantics, str.format, datetime are modelled and exercised, not verified; ASCII names.",
-        technique="Coq proof (calendar by complete cycle sweep + lia; render/parse round trip by induction over the token list) + vm_compute correspondence",
+        technique="Coq proof (calendar by complete cycle sweep + lia; render/parse round trip and parser soundness/completeness by induction over the token list; end completion via s/u*u + e mod u) + vm_compute correspondence with certified instance witnesses",
         design="5/C02"),
     "C06": dict(
         text=("Theorems: for EVERY permutation the internal shuffle may draw and every tree that answers radius queries correctly "
